@@ -45,6 +45,24 @@ CHECKS = {
     text="xor_gen/pq_gen kernels (7 objects): all data symbolic, z3 proves P = xor and Q = Horner/0x11D bytewise, sources read-only, aligned/non-temporal accesses legal. xor_check/pq_check: every feasible path, "
          "z3 proves return==0 <=> parity-consistent (so any single-byte change is detected). Arguments below the documented minimum return non-zero with zero memory accesses.",
     note="Trusted: interpreter semantics (validated natively each run), z3, CBMC. vects <= 8 (20 thorough), len <= 300/320 (640)."),
+ "C04": dict(
+    engine="x86sym (gf2-affine) + cbmc-c", category="translation_validation", design_ref="DESIGN.md §5 C04, §4.4",
+    technique="symbolic execution of the 40 assembled CRC kernels in a GF(2)-affine term domain (every bit an affine form over all seed and message bits), compared bit by bit with the bit-serial CRC definition; z3 bit-vector queries for the Adler-32 scalar path; CBMC for the table-driven C routines",
+    text="Each CRC kernel is run from its machine code with the seed and all message bits symbolic for every length 0..300 (thorough 0..1200) plus block boundaries and several alignments; the result bits are affine forms whose "
+         "difference from the published-check-value-anchored bit-serial definition must be identically zero; copy forms also reproduce the source. Composition over splits follows from equality with the state-passing definition.",
+    note="Trusted: interpreter semantics incl. the affine-domain operations (each case cross-checked against native execution on random assignments), spec/crc_py.py anchors. Adler-32 assembly kernels are decided only on their scalar path "
+         "(len < 24/32); their vector path is out of reach (DESIGN). Known finding: crc32_iscsi_00/01 aligned-word tail over-read."),
+ "C05": dict(
+    engine="x86sym + cbmc-c", category="model_checking", design_ref="DESIGN.md §5 C05, §4.2",
+    technique="access monitor inside the symbolic execution of every assembled leaf kernel (true access width, masked lanes, alignment-faulting forms) against exact caller-declared regions; CBMC pointer checks on the C codec harnesses",
+    text="All 125 assembled leaf kernels (zero detect, RAID, erasure code, CRC, Adler) are executed symbolically over a memory-safety sweep (lengths 0,1,every vector-width remainder; buffer starts at odd alignments); every load and store on every feasible path "
+         "must fall inside the regions implied by the arguments, violations are replayed natively against a guard page. For all data: the check is decided by the solver-driven path exploration, not sampled.",
+    note="igzip assembly bodies are outside (data-dependent addressing). Known finding: crc32_iscsi_00/01 read up to 7 bytes past the buffer inside one aligned word. Fixed findings: zero-detect avx2/avx512, gf_vect_mul len=0, gf_5vect_dot_prod_avx512_gfni."),
+ "C15": dict(
+    engine="x86sym + cbmc-c", category="model_checking", design_ref="DESIGN.md §5 C15",
+    technique="symbolic execution of all resolvers with symbolic caller registers and CPUID results: store set, dependency set of the stored pointer, register preservation decided with z3; 2-safety CBMC harnesses for context independence (when present)",
+    text="Shows the structural facts thread-safety rests on: each resolver's only store outside its stack is one aligned 8-byte store to its dispatch cell, the stored value and the control flow depend on CPUID/XGETBV results only, all caller registers are preserved; kernels write only caller-declared memory (C05).",
+    note="Interleavings themselves are not explored (argued from the established facts). Levels 1-3/level buffers outside."),
 }
 
 NOT_YET = {}
